@@ -66,7 +66,7 @@ def func_hash(repo, q):
 
 # ------------------------------------------------------------------------------------------
 def preamble(ctx, drop=()):
-    lines = ["(set-logic ALL)", smt.STR_SIG_U, "(declare-sort Rec 0)", "(declare-sort Conv 0)"]
+    lines = ["(set-logic ALL)", smt.STR_SIG_U, "(declare-sort Rec 0)", "(declare-sort Conv 0)", "(declare-sort Msg 0)"]
     lines += list(ctx.sort_decls.values())
     if getattr(ctx, "need_join_sorted", False):
         ls = ctx.sort(("list", "str"))
@@ -224,7 +224,7 @@ def build_engine(module="api"):
 
 
 def gen_contract_vcs(q, carve_outs=()):
-    repo, ctx, eng = build_engine(q.split(".")[0] if q.split(".")[0] in ("api", "reconciliation", "discovery", "w3c", "triples") else "api")
+    repo, ctx, eng = build_engine("api")
     if q not in repo.funcs:
         raise Demoted(f"function {q} not found in the repository source")
     fnode, mod, cls = repo.funcs[q]
